@@ -1,7 +1,7 @@
 """Which contract libraries serve which property."""
 import importlib
 
-LIBS = ["bitset", "scalars", "codec", "cursor", "gen_access", "groups"]
+LIBS = ["bitset", "scalars", "codec", "cursor", "gen_access", "groups", "arrays"]
 
 
 def contracts_for(prop, tier):
